@@ -36,7 +36,7 @@ ASSUMPTIONS = [
 
 ERR = ('e', '#DIV/0!')
 NAV = ('e', '#N/A')
-SPECIAL = {'err': ERR, 'blank': BLANK, 'text': T('tx'), 'log': B(True)}
+SPECIAL = {'err': ERR, 'blank': BLANK, 'text': T('tx'), 'log': B(True), 'na': NAV}
 ALPHA = 'AbCdEfGhIjKlMnOpQrSt'
 BIN = {'+': 'nn', '-': 'nn', '*': 'nn', '/': 'nn', '^': 'ni', '&': 'tn',
        '=': 'mm', '<>': 'mm', '<': 'mm', '>': 'mm', '<=': 'mm', '>=': 'mm'}
@@ -54,8 +54,8 @@ FUNCS4 = {'IFS/4': 'znzn', 'SWITCH/4': 'mmnn', 'REPLACE/4': 'tiit', 'SUBSTITUTE/
 ALLKINDS = dict(KINDS, **FUNCS4)
 # result producers of the fit space: (template, element kind, pad) - pad: f(#N/A) is also accepted beyond the result (ASSUMPTIONS)
 PRODUCERS = {'id': ('=%s', 'n', False), 'add0': ('=%s+0', 'n', False), 'iferror': ('=IFERROR(%s,0)', 'n', False),
-             'isnumber': ('=ISNUMBER(%s)', 'n', True)}
-PRODUCERS_T = {'neg': ('=-%s', 'n', False), 'concat': ('=%s&""', 't', False), 'if': ('=IF(TRUE,%s,0)', 'n', False),
+             'isnumber': ('=ISNUMBER(%s)', 'n', True), 'adderr': ('=%s+#DIV/0!', 'n', False)}
+PRODUCERS_T = {'rounderr': ('=ROUND(%s,#DIV/0!)', 'n', False), 'errcat': ('=#DIV/0!&%s', 't', False), 'neg': ('=-%s', 'n', False), 'concat': ('=%s&""', 't', False), 'if': ('=IF(TRUE,%s,0)', 'n', False),
                'upper': ('=UPPER(%s)', 't', False), 'istext': ('=ISTEXT(%s)', 't', True)}
 ALLPROD = dict(PRODUCERS, **PRODUCERS_T)
 
@@ -201,13 +201,20 @@ def lift_cases(tier):
                     for sp in ('err',) if big else ('err', 'blank', 'text', 'log'):
                         if sp != 'blank' or amode(mode, a) == 'rng':
                             yield ['lift', name, sn, mode, [a, sp]]
+                # two different errors in two arguments: which one wins is decided element by element
+                if not big:
+                    for a in range(len(kinds)):
+                        for b in range(len(kinds)):
+                            if a != b:
+                                yield ['lift', name, sn, mode, [a, 'err', b, 'na']]
 
 
 def run_lift(case):
     from xl.evalcell import eval_formula
     _, name, sn, mode, var = case
     kinds, shps = ALLKINDS[name], [L.parse_shape(s) for s in sn]
-    args = [value(kd, k, s, var[1] if var and var[0] == k else None) for k, (kd, s) in enumerate(zip(kinds, shps))]
+    spec = lambda k: None if not var else var[1] if var[0] == k else var[3] if len(var) > 2 and var[2] == k else None
+    args = [value(kd, k, s, spec(k)) for k, (kd, s) in enumerate(zip(kinds, shps))]
     tpl, inputs = template(name), {}
     txt = tpl % tuple(spell(v, k, mode, inputs, wrap=True) for k, v in enumerate(args))
     rs = L.broadcast_shape(shps)
@@ -220,7 +227,7 @@ def run_lift(case):
     if not same(got, exp):
         cls = 'lift-escape' if isinstance(got, tuple) else 'lift-wrong'
         fails.append(Fail(cls, got=got, exp=exp, fn=name, shapes='|'.join(sn), classes='|'.join(L.shape_class(s) for s in shps),
-                          result=L.shape_name(rs), mode=mode, variant='base' if not var else var[1],
+                          result=L.shape_name(rs), mode=mode, variant='base' if not var else var[1] if len(var) < 3 else 'err+na',
                           varg=None if not var else var[0], formula=txt))
     return result(execs, outcome('lift', name, got), fails)
 
